@@ -504,6 +504,68 @@ theorem inv_gReturn (st : St) (h : Inv st) (r : Req) (hr : st.req = some r) (hp 
     · exact h.iA e he
 
 /-- **every step preserves the invariant** -/
+theorem maxAll_some (st : St) (m : TS) (h : maxAll st = some m) : ∀ d ∈ st.dcs, tsLe (st.loc d) m := by
+  intro d hd
+  obtain ⟨m', hm', hle⟩ := (foldl_maxLocal st.loc st.dcs none).2 d hd
+  unfold maxAll at h
+  rw [h] at hm'; cases hm'; exact hle
+
+/-- a datacenter joins while no global request is in flight: its allocator starts at (or above) the largest local
+    memory, which is at or above every global timestamp returned so far -/
+theorem inv_dcJoin (st : St) (h : Inv st) (d s : Nat) (m : TS) (hreq : st.req = none) (hm : maxAll st = some m)
+    (hd0 : d ≠ 0) (hdn : d ∉ st.dcs) (hs : s ∈ st.servers) :
+    Inv { st with dcs := d :: st.dcs,
+                  srvOf := fun i => if i = d then s else st.srvOf i,
+                  loc := fun i => if i = d then tsMax (st.loc d) m else st.loc i } := by
+  have hmax := maxAll_some st m hm
+  have hne : st.dcs ≠ [] := by
+    intro he; unfold maxAll at hm; rw [he] at hm; cases hm
+  obtain ⟨d0, hd0m⟩ := List.exists_mem_of_ne_nil _ hne
+  have hmono : ∀ i, tsLe (st.loc i) (if i = d then tsMax (st.loc d) m else st.loc i) := by
+    intro i; split
+    · next hi => subst hi; exact tsMax_ge_left _ _
+    · exact tsLe_refl _
+  have hnoev : ∀ e ∈ st.events, e.alloc ≠ d := by
+    intro e he hed
+    rcases h.iA e he with h0 | hin
+    · exact hd0 (hed ▸ h0)
+    · exact hdn (hed ▸ hin)
+  refine ⟨⟨?_, ?_⟩, ?_, h.iG, ?_, h.iT, ?_, ?_, h.gg, h.ord, ?_, ?_⟩
+  · intro x hx
+    simp only [List.mem_cons] at hx
+    simp only
+    rcases hx with rfl | hx
+    · simp [hs]
+    · have : x ≠ d := fun hxd => hdn (hxd ▸ hx)
+      simp [this, h.wf.srv_mem x hx]
+  · intro x hx
+    simp only [List.mem_cons] at hx
+    rcases hx with rfl | hx
+    · exact hd0
+    · exact h.wf.dc_pos x hx
+  · intro e he h0; exact tsLe_trans (h.iL e he h0) (hmono _)
+  · intro e he h0 x hx
+    simp only [List.mem_cons] at hx
+    rcases hx with rfl | hx
+    · simp only [if_pos]
+      exact tsLe_trans (tsLe_trans (h.iW e he h0 d0 hd0m) (hmax d0 hd0m)) (tsMax_ge_right _ _)
+    · exact tsLe_trans (h.iW e he h0 x hx) (hmono _)
+  · intro g hg hg0 l hl hld hlt
+    simp only [List.mem_cons] at hld
+    rcases hld with hld | hld
+    · exact absurd hld (hnoev l hl)
+    · exact h.gl g hg hg0 l hl hld hlt
+  · intro g hg hg0 l hl hld hlt
+    simp only [List.mem_cons] at hld
+    rcases hld with hld | hld
+    · exact absurd hld (hnoev l hl)
+    · exact h.lg g hg hg0 l hl hld hlt
+  · intro e he
+    rcases h.iA e he with h0 | hin
+    · exact Or.inl h0
+    · exact Or.inr (List.mem_cons_of_mem _ hin)
+  · intro r hr; simp only at hr; rw [hreq] at hr; cases hr
+
 theorem inv_step (st : St) (h : Inv st) (op : Op) : Inv (step st op) := by
   have ht := inv_tick st h
   have hclk : ∀ e ∈ (tick st).events, e.finish < (tick st).clock := by
@@ -638,5 +700,20 @@ theorem inv_step (st : St) (h : Inv st) (op : Op) : Inv (step st op) := by
           cases hph : r.phase <;> simp_all
         exact inv_gReturn _ ht r hr hp hclk
   | gAbort => exact inv_dropReq _ ht
+  | dcJoin d s =>
+    simp only
+    split
+    · next hreq hm =>
+      split
+      · exact ht
+      · next hc =>
+        have hd0 : d ≠ 0 := fun h0 => hc (Or.inl h0)
+        have hdn : d ∉ (tick st).dcs := fun hin => hc (Or.inr (Or.inl hin))
+        have hs : s ∈ (tick st).servers := by
+          rcases Classical.em (s ∈ (tick st).servers) with h1 | h1
+          · exact h1
+          · exact absurd (Or.inr (Or.inr h1)) hc
+        exact inv_dcJoin _ ht d s _ hreq hm hd0 hdn hs
+    · exact ht
 
 end PdModel.TsoGlobal
